@@ -345,110 +345,54 @@ class PrinterModel:
             fields.pop(nm, None)
 
     # ---- the two tables of the precedence-aware printer ----
-    def _match_of(self, name):
+    def _fold(self, name, args_of, post=lambda v: v):
+        """fold the private table function `name` of generate::ast over abstract arguments (rules/smalleval.py): any spelling of the
+        same table - arms merged or split, a helper computing the level, an if instead of a match - gives the same result"""
+        from .smalleval import SmallEval, NoEval
         fns = self.syn.find_fn(name, mod="generate::ast")
         if len(fns) != 1:
             return None
-        m = tail_expr(fns[0]["body"])
-        m = strip(m) if m else None
-        if m is None or m.get("k") != "match":
-            raise AnchorError(f"`{name}` is no longer a single match table")
-        return m
+        local = {f["name"]: f for f in self.syn.fns if f["mod"] == fns[0]["mod"] and f.get("impl_of") is None and f.get("body")}
+        ev = SmallEval(local_fns=local, consts=dict(self.consts))
+        out = {}
+        for key, args in args_of():
+            try:
+                out[key] = post(ev.call(fns[0], args))
+            except NoEval as ex:
+                raise AnchorError(f"`{name}` left the analysable fragment for {key} ({ex})")
+        return out
 
     def _table1(self, name):
-        m = self._match_of(name)
-        if m is None:
+        t = self._fold(name, lambda: [(v, [("variant", "Core::" + v, {})]) for v in self.core])
+        if t is None:
             return None
-        table = {}
-        default = None
-        for a in m["arms"]:
-            lv = self._level(a["body"])
-            if lv is None:
-                raise AnchorError(f"`{name}`: arm `{src(a['pat'])[:60]}` does not yield an integer constant")
-            for alt in pat_alternatives(a["pat"]):
-                if alt.get("k") in ("pstruct", "ppath", "ptstruct"):
-                    table.setdefault(alt["p"].split("::")[-1], lv)   # first matching arm wins
-                elif alt.get("k") == "pwild":
-                    default = lv
-                else:
-                    raise AnchorError(f"`{name}`: unexpected pattern `{src(alt)}`")
-        if default is None:
-            default_all = set(self.core) - set(table)
-            if default_all:
-                raise AnchorError(f"`{name}` has no default arm")
-        for v in self.core:
-            table.setdefault(v, default)
-        return table
+        for v, lv in t.items():
+            if not isinstance(lv, int) or isinstance(lv, bool):
+                raise AnchorError(f"`{name}`: {v} does not yield an integer level (`{lv}`)")
+        return t
 
     def _table2(self, name):
-        m = self._match_of(name)
-        if m is None:
+        t = self._fold(name, lambda: [((v, side), [("variant", "Core::" + v, {}), "Side::" + side]) for v in self.core for side in ("Left", "Middle", "Right")])
+        if t is None:
             return None
-        rows = []  # ordered (variants|None, side|None, level)
-        for a in m["arms"]:
-            lv = self._level(a["body"])
-            if lv is None:
-                raise AnchorError(f"`{name}`: arm `{src(a['pat'])[:60]}` does not yield an integer constant")
-            for alt in pat_alternatives(a["pat"]):
-                if alt.get("k") == "pwild":
-                    rows.append((None, None, lv))
-                    continue
-                if alt.get("k") != "ptuple" or len(alt["elems"]) != 2:
-                    raise AnchorError(f"`{name}`: unexpected pattern `{src(alt)}`")
-                vp, sp = alt["elems"]
-                variants = []
-                for va in pat_alternatives(vp):
-                    if va.get("k") in ("pstruct", "ppath"):
-                        variants.append(va["p"].split("::")[-1])
-                    elif va.get("k") == "pwild":
-                        variants = None
-                        break
-                    else:
-                        raise AnchorError(f"`{name}`: unexpected variant pattern `{src(va)}`")
-                sides = []
-                for sa in pat_alternatives(sp):
-                    if sa.get("k") == "ppath":
-                        sides.append(sa["p"].split("::")[-1])
-                    elif sa.get("k") == "pwild":
-                        sides = None
-                        break
-                    else:
-                        raise AnchorError(f"`{name}`: unexpected side pattern `{src(sa)}`")
-                rows.append((variants, sides, lv))
-        table = {}
-        for v in self.core:
-            for side in ("Left", "Middle", "Right"):
-                for variants, sides, lv in rows:
-                    if (variants is None or v in variants) and (sides is None or side in sides):
-                        table[(v, side)] = lv
-                        break
-        return table
+        for k_, lv in t.items():
+            if not isinstance(lv, int) or isinstance(lv, bool):
+                raise AnchorError(f"`{name}`: {k_} does not yield an integer level (`{lv}`)")
+        return t
 
     def _chain_table(self):
         """chain_level(core) -> Option<u8>: variants the parser nests to the right at one grammar level"""
-        fns = self.syn.find_fn("chain_level", mod="generate::ast")
-        if len(fns) != 1:
+        t = self._fold("chain_level", lambda: [(v, [("variant", "Core::" + v, {})]) for v in self.core])
+        if t is None:
             return {}
-        m = tail_expr(fns[0]["body"])
-        m = strip(m) if m else None
-        if m is None or m.get("k") != "match":
-            raise AnchorError("`chain_level` is no longer a single match table")
-        table = {}
-        for a in m["arms"]:
-            b = strip(a["body"])
-            lv = None
-            if b.get("k") == "call" and src(b["f"]) == "Some" and len(b["args"]) == 1:
-                lv = self._level(b["args"][0])
-                if lv is None:
-                    raise AnchorError("`chain_level`: arm does not yield Some(<integer>)")
-            elif src(b) != "None":
-                raise AnchorError(f"`chain_level`: unexpected arm body `{src(b)[:40]}`")
-            for alt in pat_alternatives(a["pat"]):
-                if alt.get("k") in ("pstruct", "ppath"):
-                    table.setdefault(alt["p"].split("::")[-1], lv)
-                elif alt.get("k") != "pwild":
-                    raise AnchorError(f"`chain_level`: unexpected pattern `{src(alt)}`")
-        return {k: v for k, v in table.items() if v is not None}
+        out = {}
+        for v, lv in t.items():
+            if lv is None:
+                continue
+            if not (isinstance(lv, tuple) and lv[0] == "Some" and isinstance(lv[1], int)):
+                raise AnchorError(f"`chain_level`: {v} does not yield Some(<integer>) or None (`{lv}`)")
+            out[v] = lv[1]
+        return out
 
     def _operand_rule(self):
         """decision table of `operand` over (side, chain level of the parent, chain level of the child): 'plain' = always
